@@ -138,6 +138,79 @@ func realLeaf(l leafSpec) model.Iterator {
 	return (&model.LogEventIterator{}).Wrap(tagLine(l.Tags), model.NewTestLogEventsWrapper(l.logEvents()))
 }
 
+// growIt is model.TestLogEventsWrapper line by line, over a slice a writer may append to while a cursor stands on it
+// (used by the scripts with an append op; every answer is compared with the Lean leaf, which is the same state machine)
+type growIt struct {
+	les  []model.LogEvent
+	idx  int
+	bkwd bool
+}
+
+func (g *growIt) Next(ctx context.Context) {
+	if g.bkwd {
+		if g.idx >= 0 {
+			g.idx--
+		}
+		return
+	}
+	if g.idx < len(g.les) {
+		g.idx++
+	}
+}
+
+func (g *growIt) Get(ctx context.Context) (records.Record, error) {
+	if g.bkwd && g.idx >= len(g.les) {
+		g.idx = len(g.les) - 1
+	}
+	if !g.bkwd && g.idx < 0 {
+		g.idx = 0
+	}
+	if g.idx < len(g.les) && g.idx >= 0 {
+		buf := make([]byte, g.les[g.idx].WritableSize())
+		g.les[g.idx].Marshal(buf)
+		return buf, nil
+	}
+	return nil, io.EOF
+}
+func (g *growIt) Release()                        {}
+func (g *growIt) SetBackward(b bool)              { g.bkwd = b }
+func (g *growIt) CurrentPos() records.IteratorPos { return g.idx }
+
+// growTree builds the real mixer tree over growable leaves; leaves are returned left to right
+func growTree(t *treeSpec, leaves *[]*growIt) model.Iterator {
+	if t.Leaf != nil {
+		g := &growIt{les: t.Leaf.logEvents()}
+		*leaves = append(*leaves, g)
+		return (&model.LogEventIterator{}).Wrap(tagLine(t.Leaf.Tags), g)
+	}
+	m := &model.Mixer{}
+	a := growTree(t.A, leaves)
+	b := growTree(t.B, leaves)
+	m.Init(model.GetEarliest, a, b)
+	return m
+}
+
+func hasAppend(ops []string) bool {
+	for _, o := range ops {
+		if strings.HasPrefix(o, "a") {
+			return true
+		}
+	}
+	return false
+}
+
+// parseAppend: "a<k>:<ts>:<msg>"
+func parseAppend(op string) (k int, ts int64, msg int, ok bool) {
+	f := strings.Split(strings.TrimPrefix(op, "a"), ":")
+	if len(f) != 3 {
+		return
+	}
+	k, e1 := strconv.Atoi(f[0])
+	ts, e2 := strconv.ParseInt(f[1], 10, 64)
+	msg, e3 := strconv.Atoi(f[2])
+	return k, ts, msg, e1 == nil && e2 == nil && e3 == nil
+}
+
 func realTree(t *treeSpec) model.Iterator {
 	if t.Leaf != nil {
 		return realLeaf(*t.Leaf)
@@ -282,7 +355,22 @@ func drainIt(it model.Iterator, max int) ([]ev, bool) {
 
 // runOps returns one token per op and, per "d" op, the events drained
 func runOps(it model.Iterator, root model.Iterator, ops []string, total int) (toks []string, drains [][]ev) {
+	return runOpsG(it, root, ops, total, nil)
+}
+
+// runOpsG: as runOps, with growable leaves for the append op
+func runOpsG(it model.Iterator, root model.Iterator, ops []string, total int, leaves []*growIt) (toks []string, drains [][]ev) {
 	for _, op := range ops {
+		if k, ts, msg, ok := parseAppend(op); ok && strings.HasPrefix(op, "a") {
+			if k >= 0 && k < len(leaves) {
+				leaves[k].les = append(leaves[k].les, model.LogEvent{Timestamp: ts, Msg: []byte(strconv.Itoa(msg))})
+				total++
+				toks = append(toks, "."+suffix(root))
+			} else {
+				toks = append(toks, "bad-op")
+			}
+			continue
+		}
 		switch op {
 		case "g":
 			e, st := getEv(it)
@@ -515,6 +603,93 @@ func midOracle(ls []leafSpec, ops []string, toks []string) (alone map[int][]ev, 
 	return alone, false, true
 }
 
+// pageAppendScript: read k events, peek and release (what cursor.commit does at the end of a page: State() -> Get, Release),
+// then records are appended to partitions, then the read goes on to the end
+func pageAppendScript(k int, peek bool, appends []string) []string {
+	var ops []string
+	for i := 0; i < k; i++ {
+		ops = append(ops, "g", "n")
+	}
+	if peek {
+		ops = append(ops, "g")
+	}
+	ops = append(ops, "r")
+	ops = append(ops, appends...)
+	return append(ops, "d")
+}
+
+// appendOracle recognises a pageAppendScript and says what every source read alone delivers after the page boundary:
+// its records (the appended ones included) from the first one the first page did not consume
+func appendOracle(ls []leafSpec, ops []string, toks []string) (alone map[int][]ev, ok bool) {
+	if len(toks) != len(ops) || !hasAppend(ops) {
+		return nil, false
+	}
+	i := 0
+	cnt := map[int]int{}
+	for i+1 < len(ops) && ops[i] == "g" && ops[i+1] == "n" {
+		if e := parseTok(toks[i]); e != nil {
+			cnt[e.Tags]++
+		}
+		i += 2
+	}
+	if i < len(ops) && ops[i] == "g" {
+		i++
+	}
+	if i >= len(ops) || ops[i] != "r" {
+		return nil, false
+	}
+	i++
+	all := map[int][]ev{}
+	for _, l := range ls {
+		all[l.Tags] = l.events(false)
+	}
+	for i < len(ops)-1 {
+		k, ts, msg, ok := parseAppend(ops[i])
+		if !ok || k < 0 || k >= len(ls) {
+			return nil, false
+		}
+		all[ls[k].Tags] = append(all[ls[k].Tags], ev{ts, msg, ls[k].Tags})
+		i++
+	}
+	if ops[i] != "d" {
+		return nil, false
+	}
+	alone = map[int][]ev{}
+	for _, l := range ls {
+		c := cnt[l.Tags]
+		if c > len(all[l.Tags]) {
+			c = len(all[l.Tags])
+		}
+		alone[l.Tags] = append([]ev{}, all[l.Tags][c:]...)
+	}
+	return alone, true
+}
+
+// genAppends: 1..3 records appended to random sources, each later than everything stored so far (a log that grows in time)
+func genAppends(rng *vh.Rng, ls []leafSpec) []string {
+	var maxTs int64 = -1 << 62
+	for _, l := range ls {
+		for _, r := range l.Recs {
+			if r[0] > maxTs {
+				maxTs = r[0]
+			}
+		}
+	}
+	if maxTs > math.MaxInt64-10 {
+		return nil
+	}
+	var aps []string
+	n := rng.Range(1, 3)
+	cnt := map[int]int{}
+	for j := 0; j < n; j++ {
+		k := rng.Intn(len(ls))
+		maxTs += int64(rng.Range(1, 2))
+		aps = append(aps, fmt.Sprintf("a%d:%d:%d", k, maxTs, ls[k].Tags*1000+500+cnt[k]))
+		cnt[k]++
+	}
+	return aps
+}
+
 func specTreeWith(t *treeSpec, back bool, alone map[int][]ev) []ev {
 	if t.Leaf != nil {
 		return alone[t.Leaf.Tags]
@@ -548,11 +723,37 @@ func totalRecs(ls []leafSpec) int {
 
 // runMixerCase executes one (tree, script) on the real Mixer; returns the model request and the implementation's answer;
 // evaluates the SPEC on every complete drain it can interpret (scripts "d…" and "d b1 d…").
-func runMixerCase(c mixerCase, sec *vh.Section) pending {
+// runMixerCase: a panic of the code under test is a failure with its input, not the end of the harness
+func runMixerCase(c mixerCase, sec *vh.Section) (p pending) {
+	if pn := vh.Recover(func() { p = runMixerCase0(c, sec) }); pn != "" {
+		res.SpecFail(vh.SpecFailure{Section: "mixer", Kind: "panic", Input: c, Impl: pn, Spec: "no panic", What: "model.Mixer panicked on a script of Get/Next/Release/SetBackward"})
+		p = pending{"mixer", "model.Mixer Get/Next/Release/SetBackward", c, "mix " + c.Tree.line() + " | " + strings.Join(c.Ops, " "), "PANIC " + pn}
+	}
+	return
+}
+
+func runMixerCase0(c mixerCase, sec *vh.Section) pending {
 	ls := c.Tree.leaves()
-	it := realTree(c.Tree)
-	toks, drains := runOps(it, it, c.Ops, totalRecs(ls))
+	var it model.Iterator
+	var toks []string
+	var drains [][]ev
+	if hasAppend(c.Ops) {
+		var gl []*growIt
+		it = growTree(c.Tree, &gl)
+		toks, drains = runOpsG(it, it, c.Ops, totalRecs(ls)+len(c.Ops), gl)
+	} else {
+		it = realTree(c.Tree)
+		toks, drains = runOps(it, it, c.Ops, totalRecs(ls))
+	}
 	impl := strings.Join(toks, " ")
+	if alone, ok := appendOracle(ls, c.Ops, toks); ok && len(drains) == 1 {
+		got := drains[0]
+		what := "read continued after a page boundary (Get, Release) behind which records were appended to the partitions"
+		if kind, w := checkProperty(got, alone, false); kind != "" {
+			res.SpecFail(vh.SpecFailure{Section: "mixer", Kind: kind, Input: c, Impl: evsString(got), Spec: evsString(specTreeWith(c.Tree, false, alone)),
+				What: what + ": " + w})
+		}
+	}
 	key := ""
 	if len(ls) >= 2 && totalRecs(ls) >= 2 {
 		key = c.Tree.line() + "|" + strings.Join(c.Ops, "")
@@ -595,7 +796,7 @@ func runMixerCase(c mixerCase, sec *vh.Section) pending {
 
 func sectionMixer(rng *vh.Rng, corpus []mixerCase) {
 	sec := res.Section("mixer", "unit-correspondence",
-		"real model.Mixer trees (2..6 LogEventIterator/TestLogEventsWrapper leaves, every tree shape) with explicit source order: (a) exhaustive: two leaves of 0..2 events with timestamps in {1,2}, six fixed scripts each plus, at every point k of the stream, Get-without-Next then SetBackward(true) then drain, and the same followed at every later point j by Get, SetBackward(false), drain; (b) seeded random trees/contents (ties, empties, unsorted, negative ts, int64 extremes whose differences overflow) x fixed scripts + one random script of Get/Next/Release/SetBackward/drain; every answer and the root's (st,eof1,eof2) compared with the Lean model, complete forward/backward drains compared with the Go merge oracle and the property; non-trivial = at least 2 sources and 2 events, distinct by (tree, script)")
+		"real model.Mixer trees (2..6 LogEventIterator/TestLogEventsWrapper leaves, every tree shape) with explicit source order: (a) exhaustive: two leaves of 0..2 events with timestamps in {1,2}, six fixed scripts each plus, at every point k of the stream, Get-without-Next then SetBackward(true) then drain, and the same followed at every later point j by Get, SetBackward(false), drain; at every point k a page boundary ([Get,] Release) behind which a later record is appended to either source, then drain (growable leaves; the read must continue with the union incl. the appended records); (b) seeded random trees/contents (ties, empties, unsorted, negative ts, int64 extremes whose differences overflow) x fixed scripts + one random script of Get/Next/Release/SetBackward/drain; every answer and the root's (st,eof1,eof2) compared with the Lean model, complete forward/backward drains compared with the Go merge oracle and the property; non-trivial = at least 2 sources and 2 events, distinct by (tree, script)")
 	var ps []pending
 	for _, c := range corpus {
 		ps = append(ps, runMixerCase(c, sec))
@@ -624,6 +825,16 @@ func sectionMixer(rng *vh.Rng, corpus []mixerCase) {
 			for _, s := range fixedScripts {
 				ps = append(ps, runMixerCase(mixerCase{t, s}, sec))
 				res.Dist(sec, "exhaustive-2x2")
+			}
+			// every point of the stream as a page boundary, then an append to either source (later than everything stored)
+			for k := 0; k <= len(xa)+len(xb); k++ {
+				for _, peek := range []bool{true, false} {
+					for who := 0; who < 2; who++ {
+						ap := fmt.Sprintf("a%d:9:%d", who, (who+1)*1000+500)
+						ps = append(ps, runMixerCase(mixerCase{t, pageAppendScript(k, peek, []string{ap})}, sec))
+						res.Dist(sec, "exhaustive-2x2-page-append")
+					}
+				}
 			}
 			// every point of the stream: switch backward with a pending selection, and forward again at every later point
 			for k := 0; k <= len(xa)+len(xb); k++ {
@@ -655,6 +866,12 @@ func sectionMixer(rng *vh.Rng, corpus []mixerCase) {
 			j := rng.Range(-1, k)
 			ps = append(ps, runMixerCase(mixerCase{t, midScript(k, j, rng.Chance(1, 3))}, sec))
 			res.Dist(sec, "midstream-switch")
+		}
+		if shape != "unsorted" {
+			if aps := genAppends(rng, ls); aps != nil {
+				ps = append(ps, runMixerCase(mixerCase{t, pageAppendScript(rng.Range(0, totalRecs(ls)+1), rng.Bool(), aps)}, sec))
+				res.Dist(sec, "page-append")
+			}
 		}
 		c := mixerCase{t, genOps(rng, rng.Range(6, 30))}
 		ps = append(ps, runMixerCase(c, sec))
@@ -741,6 +958,14 @@ type cursorCase struct {
 }
 
 func runCursorCase(c cursorCase, sec *vh.Section) (p pending, ok bool) {
+	if pn := vh.Recover(func() { p, ok = runCursorCase0(c, sec) }); pn != "" {
+		res.SpecFail(vh.SpecFailure{Section: "cursor", Kind: "panic", Input: c, Impl: pn, Spec: "no panic", What: "cursor.newCursor or the cursor it built panicked"})
+		return pending{}, false
+	}
+	return
+}
+
+func runCursorCase0(c cursorCase, sec *vh.Section) (p pending, ok bool) {
 	f := &fakeItf{jrnls: map[tag.Line]*fakeJrnl{}, released: map[string]int{}}
 	byTags := map[int]leafSpec{}
 	for _, l := range c.Leaves {
